@@ -54,17 +54,19 @@ def encSkLoop (bits b n size : Nat) (pt : Option (Col × Nat)) : Nat → List Co
     | none => none
     | some c1 => encSkLoop bits b n size pt (i + 1) as ss c1
 
+/-- `if let Some((pt, col)) = pt && col == 0 { vec_znx_add_assign(c0, 0, pt, 0) }` -/
+def addPtCol0 (pt : Option (Col × Nat)) (c1 : Col) : Col :=
+  match pt with
+  | some (p, col) => if col = 0 then vecAddAssignW w64 c1 p else c1
+  | none => c1
+
 /-- what follows the loop: `c0 += e` on the target limb, `c0 += pt` if the plaintext goes to
 column 0, `ct[0] = normalize(c0)` -/
 def encSkFinish (b n size kxe : Nat) (pt : Option (Col × Nat)) (e : Poly) (c0 : Col) : Option Col :=
   match Sampling.addNormalCol w64 kxe b c0 e with      -- vec_znx_add_normal(base2k, c0, 0, noise, source_xe)
   | none => none
   | some c1 =>
-    let c2 : Col :=
-      match pt with
-      | some (p, col) => if col = 0 then vecAddAssignW w64 c1 p else c1   -- vec_znx_add_assign(c0, 0, pt, 0)
-      | none => c1
-    normalizeCol? b size 0 c2 b n                      -- vec_znx_normalize(ct, base2k, 0, 0, c0, base2k, 0)
+    normalizeCol? b size 0 (addPtCol0 pt c1) b n                      -- vec_znx_normalize(ct, base2k, 0, 0, c0, base2k, 0)
 
 /-- **`glwe_encrypt_sk_internal`** given the mask columns: returns the body (column 0).
 `size` = number of limbs of the ciphertext, `kxe` = precision of the noise (`NoiseInfos::k`). -/
